@@ -64,7 +64,7 @@ CHECKS.update({
          'Rejected operations (2001 entries, >10 GiB, >1 GiB entry, empty batch, over-long topic names) inside generated histories with restarts; and for generated workloads, every I/O event of every append / batch append (block write, io_uring SQE, submit, flush, file create/set_len/fsync, dir fsync - the latter reached by histories that first allocate 96..99 blocks) is made to fail or complete short, after which all later reads, appends, a drain, a fresh-process reopen and a second drain must agree with the model in which the failed call never happened.',
          'An injected fault stands for an I/O error reported by the kernel. Visibility of a successful batch to concurrent readers is checked by C05.', '§5 C04'),
  'C02': ('E1', 'exploration', 'metamorphic + model-based property testing (peek/consume pairs, erasure differential of non-consuming reads incl. reclamation bookkeeping via H3, content oracle for offset reads)',
-         'Three relations on every generated history: each peek equals the immediately following consuming read; the same history with every peek and offset-addressed read erased must give identical consuming results, counts, WAL file count and per-file reclamation counters after a full drain; every element of an offset-addressed read is an appended payload of that topic (first element may be a suffix) in append order.',
+         'Three relations on every generated history: each peek equals the immediately following consuming read; the same history with every peek and offset-addressed read erased must give identical consuming results, counts, WAL file count and per-file reclamation counters after a full drain; every element of an offset-addressed read is an appended payload of that topic (first element may be a suffix) in append order. The `restart-*` searches put clean restarts into the histories, so the erasure relation also covers the durable cursor and the counts / reclamation state rebuilt from it in the next lifetime (AtLeastOnce included).',
          'H3 (cfg walrus_verif) exposes the per-file counters read-only. File names are wall-clock based, so tracker views are compared as multisets.', '§5 C02'),
  'C07': ('E2', 'fault_enumeration', 'crash-point enumeration over generated workloads (H1 I/O seam: process exit before / in the middle of every foreground I/O event) with a prefix-closed recovery oracle',
          'For each generated workload all foreground I/O events are enumerated by a traced run; the workload is re-run with the process terminated before each selected event (torn variants for block writes), reopened in a fresh process and drained. Quick samples <=16 crash points per workload (stratified), thorough takes up to 400 (normally all). A second search (concurrent-producers) runs 2-3 producer threads under the H2 token scheduler with a generated schedule, kills the process at sampled I/O events of the concurrent phase (torn block writes included) and judges the recovered topics against the executor\'s invocation/return log: every append that had returned success, at most the in-flight ones, per-producer order, nothing else.',
